@@ -81,6 +81,15 @@ def table_case(draw):
                 t = {"k": "panel", "child": t, "box": "SQUARE", "title": None, "title_align": "center", "expand": draw(st.booleans()), "padding": [0, 0], "width": None}
             elif kind == 1:
                 t = {"k": "padding", "child": t, "pad": [0, draw(st.integers(0, 2))], "expand": draw(st.booleans())}
+            elif kind == 2:
+                # a nested table (1-2 columns, 1-2 rows of unique-character texts)
+                nc = draw(st.integers(1, 2))
+                def tcell():
+                    return {"k": "text", "s": text(2, allow_empty=False), "justify": None, "overflow": None, "no_wrap": None}
+                t = {"k": "table", "cols": [{"header": "", "footer": "", "justify": "left", "overflow": "fold", "ratio": None, "max_width": None} for _ in range(nc)],
+                     "rows": [{"cells": [tcell() for _ in range(nc)], "end_section": False} for _ in range(draw(st.integers(1, 2)))],
+                     "box": draw(st.sampled_from([None, "SQUARE", "ASCII"])), "show_header": False, "show_footer": False, "show_edge": draw(st.booleans()), "show_lines": False, "leading": 0,
+                     "padding": [0, draw(st.integers(0, 1))], "pad_edge": False, "collapse_padding": False, "expand": False, "title": None, "caption": None}
             cells.append(t)
         rows.append({"cells": cells, "end_section": draw(st.sampled_from([False, False, False, True])), "style": draw(st.sampled_from([None, None, "on blue"]))})
     node = {
@@ -123,6 +132,8 @@ def build_table(n, W, smin, annotations=True):
 
 
 def cell_text(c):
+    if c["k"] == "table":
+        return " ".join(cell_text(x) for r in c["rows"] for x in r["cells"])
     while c["k"] != "text":
         c = c["child"]
     return c["s"]
@@ -289,7 +300,8 @@ class Tables(Part):
                 got = sorted((p[0] for ch in want for p in seen_chars.get(ch, [])))
                 shown = [ch for ch in want if ch in seen_chars]
                 pos = [seen_chars[ch][0] for ch in shown]
-                if pos != sorted(pos):
+                nested_table = i not in (-1, 10**6) and r["cells"][j]["k"] == "table"
+                if pos != sorted(pos) and not nested_table:  # a nested table lays its own cells out side by side
                     ctx.violation("columns", "C07/columns/reordered", "cell (%r,%d) characters out of order\n%s\n%s" % (i, j, "\n".join(body), desc))
                     return
                 plain_cell = i in (-1, 10**6) or r["cells"][j]["k"] == "text"
